@@ -18,7 +18,7 @@ Call(c) == /\ Len(calls) < MaxLen
            /\ (c.ev = "Reload" /\ c.how = "tag" => tagged)
            /\ (c.ev = "Enable" => (voff \/ toff))
            /\ calls' = Append(calls, c)
-           /\ tagged' = (tagged \/ c.ev = "Tag") /\ (c.ev # "ClearLog")
+           /\ tagged' = ((tagged \/ c.ev = "Tag") /\ c.ev # "ClearLog")
            /\ voff' = IF c.ev = "Disable" /\ c.what = "v" THEN TRUE ELSE IF c.ev = "Enable" /\ c.what \in {"v", "all"} THEN FALSE ELSE voff
            /\ toff' = IF c.ev = "Disable" /\ c.what = "t" THEN TRUE ELSE IF c.ev = "Enable" /\ c.what \in {"t", "all"} THEN FALSE ELSE toff
 
